@@ -91,10 +91,11 @@ def run(ctx):
         w = cfg["oracle"]["worst_rel"]
         worst = max(worst, float("inf") if w == "inf" else w)
         nprog = len(cfg["programs"])
-        obligations += NOBL * nprog
+        nobl = sum(NOBL if pr.get("with_first_derivative_obligations", True) else NOBL - 1 for pr in cfg["programs"])
+        obligations += nobl
         programs += nprog
         if r["rc"] == 0:
-            discharged += NOBL * nprog
+            discharged += nobl
         for prog in cfg["programs"]:
             pn = prog["name"]
             # --- translation validation
